@@ -3,6 +3,11 @@
 // Contracts for the deductive verifier in /verif (govc); comments only.
 package uniformdh
 
+// the RFC 3526 1536-bit group: its value enters as an abstract constant that fits 192 bytes
+//@ spec fn PMOD() Int
+//@ axiom [pmod_fits] PMOD() > 2 && BEFITS(PMOD(), 192)
+//@ globalinv groupOK := modpGroup != nil && modpGroup.val == PMOD() && gen != nil && gen.val == 2
+
 //@ pred pubInv(pub) := pub != nil && (pub.bytes != nil ==> len(pub.bytes) == 192)
 
 //@ func (*PublicKey).SetBytes(pub, pubBytes) (err)
@@ -10,9 +15,35 @@ package uniformdh
 //@   modifies pub.bytes, pub.publicKey
 //@   ensures [C13:setbytes_len] err == nil <==> len(pubBytes) == 192
 //@   ensures err == nil ==> len(pub.bytes) == 192 && seq(pub.bytes) == seq(pubBytes) && pub.publicKey != nil
+//@   ensures [C13:value_of_wire_bytes] err == nil ==> pub.publicKey.val == unbe(seq(pubBytes)) && fresh(pub.publicKey) && fresh(pub.bytes)
 //@   ensures err != nil ==> unchanged(pub.bytes, pub.publicKey)
 
 //@ func (*PublicKey).Bytes(pub) (res, err)
 //@   serves C13 C10
 //@   ensures err == nil ==> len(res) == 192 && seq(res) == seq(pub.bytes)
 //@   ensures err == nil <==> (len(pub.bytes) == 192 && pub.bytes != nil)
+
+// x = priv with its low bit cleared; X = g^x mod p; the wire form is X or p-X (coin = the cleared bit),
+// always exactly 192 bytes (left-padded with zeros)
+//@ func generateKey(privBytes) (priv, err)
+//@   serves C13 C10
+//@   ensures [C13:key_size_checked] (err == nil) == (len(privBytes) == 192) && (err == nil) == (priv != nil)
+//@   ensures [C13:private_key_even] err == nil ==> priv.privateKey != nil && priv.privateKey.val == unbe(seq(privBytes)) - unbe(seq(privBytes)) % 2
+//@   ensures [C13:public_key_is_g_x] err == nil ==> priv.PublicKey.publicKey != nil && priv.PublicKey.publicKey.val == MODEXP(2, priv.privateKey.val, PMOD())
+//@   ensures [C13:wire_is_X_or_p_minus_X] err == nil ==> len(priv.PublicKey.bytes) == 192
+//@       && seq(priv.PublicKey.bytes) == BEPAD(ite(unbe(seq(privBytes)) % 2 == 0, priv.PublicKey.publicKey.val, PMOD() - priv.PublicKey.publicKey.val), 192)
+//@   ensures err == nil ==> fresh(priv) && fresh(priv.privateKey) && fresh(priv.PublicKey.publicKey) && fresh(priv.PublicKey.bytes)
+
+// shared secret = (peer's wire value)^x mod p, exactly 192 bytes
+//@ func Handshake(privateKey, publicKey) (ss, err)
+//@   serves C13 C10
+//@   requires privateKey != nil && publicKey != nil && privateKey.privateKey != nil && publicKey.publicKey != nil && privateKey.privateKey.val >= 0
+//@   ensures [C13:secret_is_Y_x] err == nil && len(ss) == 192 && seq(ss) == BEPAD(MODEXP(publicKey.publicKey.val, privateKey.privateKey.val, PMOD()), 192) && fresh(ss)
+
+// Agreement over the contracts: with even private values x, y and either wire form on each side,
+// both parties compute the same 192 bytes.
+//@ lemma uniformdh_agree
+//@   serves C13
+//@   vars x Int, y Int, cx Bool, cy Bool
+//@   requires x >= 0 && y >= 0 && x % 2 == 0 && y % 2 == 0
+//@   ensures [same_secret] BEPAD(MODEXP(ite(cy, MODEXP(2, y, PMOD()), PMOD() - MODEXP(2, y, PMOD())), x, PMOD()), 192) == BEPAD(MODEXP(ite(cx, MODEXP(2, x, PMOD()), PMOD() - MODEXP(2, x, PMOD())), y, PMOD()), 192)
